@@ -39,13 +39,23 @@ fn list_files(root: &Path, dir: &Path, out: &mut Vec<PathBuf>) {
 /// the fixed read-out: every key at several snapshots, scans from both ends, len.
 /// One segment per query, separated by `|`; a query that fails yields what it had produced
 /// so far followed by `ERR` (so that a later query is still performed and compared).
-fn readout(dir: &Path, cfg: &TreeCfg, keys: &[Vec<u8>], seqs: &[SeqNo]) -> String {
+fn readout(dir: &Path, cfg: &TreeCfg, keys: &[Vec<u8>], seqs: &[SeqNo], compact: bool) -> String {
     let r = std::panic::catch_unwind(std::panic::AssertUnwindSafe(|| -> Result<String, String> {
         let mut d = Driver::new(dir, cfg.clone());
         d.dump_enabled = false;
         d.open().map_err(|e| format!("open:{e}"))?;
         let t = d.tree();
         let mut out = String::new();
+        // second phase (compact = true): a major compaction reads every table through the
+        // compaction scanner and rewrites it; whatever it produces from damaged bytes must not be
+        // served afterwards either
+        for phase in 0..(if compact { 2 } else { 1 }) {
+        if phase == 1 {
+            match t.major_compact(u64::MAX, 0) {
+                Ok(()) => out.push_str("CMP;|"),
+                Err(_) => out.push_str("ERR|"),
+            }
+        }
         for s in seqs {
             for k in keys {
                 match t.get(k, *s) {
@@ -93,6 +103,7 @@ fn readout(dir: &Path, cfg: &TreeCfg, keys: &[Vec<u8>], seqs: &[SeqNo]) -> Strin
             }
             out.push('|');
         }
+        }
         d.close();
         Ok(out)
     }));
@@ -112,7 +123,7 @@ fn readout(dir: &Path, cfg: &TreeCfg, keys: &[Vec<u8>], seqs: &[SeqNo]) -> Strin
 
 /// Runs the read-out in a forked child so that a process abort (e.g. an allocation of a
 /// corrupted, absurd length) is observed as an outcome instead of killing the enumeration.
-fn readout_isolated(dir: &Path, cfg: &TreeCfg, keys: &[Vec<u8>], seqs: &[SeqNo], tmp: &Path) -> String {
+fn readout_isolated(dir: &Path, cfg: &TreeCfg, keys: &[Vec<u8>], seqs: &[SeqNo], tmp: &Path, compact: bool) -> String {
     let _ = std::fs::remove_file(tmp);
     // SAFETY: plain fork/waitpid; the child only runs the read-out and exits
     unsafe {
@@ -122,10 +133,10 @@ fn readout_isolated(dir: &Path, cfg: &TreeCfg, keys: &[Vec<u8>], seqs: &[SeqNo],
             let lim = libc::rlimit { rlim_cur: 4 << 30, rlim_max: 4 << 30 };
             libc::setrlimit(libc::RLIMIT_AS, &lim);
             // a read that never returns is neither an error nor the original answer: bound it
-            let cpu = libc::rlimit { rlim_cur: 20, rlim_max: 25 };
+            let cpu = libc::rlimit { rlim_cur: 30, rlim_max: 35 };
             libc::setrlimit(libc::RLIMIT_CPU, &cpu);
             libc::alarm(60);
-            let r = readout(dir, cfg, keys, seqs);
+            let r = readout(dir, cfg, keys, seqs, compact);
             let _ = std::fs::write(tmp, r);
             libc::_exit(0);
         }
@@ -209,7 +220,12 @@ pub fn run(seed: u64, scratch: &Path, blob: bool, exhaustive: bool, samples: u64
     let _ = crate::drive::run_history_keep(&h, &base);
     let seqs: Vec<SeqNo> = vec![SeqNo::MAX, nwrites / 2 + 1, 1];
     let _ = writeln!(out, "CFG {}", h.cfg.text());
-    let baseline = readout(&base, &h.cfg, &keys, &seqs);
+    let baseline = readout(&base, &h.cfg, &keys, &seqs, false);
+    // baseline of the two-phase read-out (reads, major compaction, reads again), on a copy
+    let work2 = scratch.join("work2");
+    copy_dir(&base, &work2);
+    let baseline2 = readout(&work2, &h.cfg, &keys, &seqs, true);
+    let _ = std::fs::remove_dir_all(&work2);
     if baseline.starts_with("ERR") || baseline.starts_with("PANIC") {
         let _ = writeln!(out, "BASELINE-BROKEN {baseline}");
         let _ = writeln!(out, "END");
@@ -218,7 +234,7 @@ pub fn run(seed: u64, scratch: &Path, blob: bool, exhaustive: bool, samples: u64
     // the read-out must be reproducible before anything is mutated
     let work = scratch.join("work");
     copy_dir(&base, &work);
-    if readout(&work, &h.cfg, &keys, &seqs) != baseline {
+    if readout(&work, &h.cfg, &keys, &seqs, false) != baseline {
         let _ = writeln!(out, "BASELINE-UNSTABLE");
     }
     let mut files = Vec::new();
@@ -226,6 +242,7 @@ pub fn run(seed: u64, scratch: &Path, blob: bool, exhaustive: bool, samples: u64
     files.sort();
     let mut counts: std::collections::BTreeMap<(String, &'static str), u64> = std::collections::BTreeMap::new();
     let mut total = 0u64;
+    let mut total2 = 0u64;
     for rel in &files {
         let content = std::fs::read(base.join(rel)).expect("read");
         let kind = file_kind(rel);
@@ -265,11 +282,25 @@ pub fn run(seed: u64, scratch: &Path, blob: bool, exhaustive: bool, samples: u64
                 c[off] = nb;
             }
             std::fs::write(work.join(rel), &c).expect("write");
-            let r = readout_isolated(&work, &h.cfg, &keys, &seqs, &scratch.join("result.txt"));
+            // table and blob files: also compact after the reads and read again
+            let two_phase = (kind == "table" || kind == "blob") && !baseline2.starts_with("ERR") && !baseline2.starts_with("PANIC");
+            let r = readout_isolated(&work, &h.cfg, &keys, &seqs, &scratch.join("result.txt"), two_phase);
+            let baseline = if two_phase { &baseline2 } else { &baseline };
+            if two_phase {
+                total2 += 1;
+            }
             total += 1;
-            let class = if r == baseline {
+            if std::env::var_os("LSMV_DEBUG_CORRUPT").is_some() && kind == "table" && r != *baseline {
+                let a: Vec<&str> = baseline.split('|').collect();
+                let b: Vec<&str> = r.split('|').collect();
+                let nerr = b.iter().filter(|x| x.ends_with("ERR")).count();
+                let ndiff = a.iter().zip(b.iter()).filter(|(x, y)| x != y && !y.ends_with("ERR")).count();
+                let cmp = b.iter().position(|x| *x == "CMP;");
+                eprintln!("DBG {} off={} {} segs={}/{} err={} diff_nonerr={} cmp_at={:?}", rel.display(), off, label, b.len(), a.len(), nerr, ndiff, cmp);
+            }
+            let class = if r == *baseline {
                 "identical"
-            } else if r.starts_with("ERR") || segments_ok(&baseline, &r) {
+            } else if r.starts_with("ERR ") || segments_ok(baseline, &r) {
                 "error"
             } else if r.starts_with("HANG") {
                 "HANG"
@@ -300,7 +331,7 @@ pub fn run(seed: u64, scratch: &Path, blob: bool, exhaustive: bool, samples: u64
     for ((k, c), n) in &counts {
         let _ = writeln!(out, "COUNT {k} {c} {n}");
     }
-    let _ = writeln!(out, "TOTAL {total} files={}", files.len());
+    let _ = writeln!(out, "TOTAL {total} files={} twophase={total2}", files.len());
     let _ = std::fs::remove_dir_all(&work);
     let _ = std::fs::remove_dir_all(&base);
     let _ = writeln!(out, "END");
